@@ -106,7 +106,7 @@ reg(PropertySpec(
     technique="contract-based deductive verification: symbolic execution of the real __getitem__ (3 classes x 4 optional-field subsets, abstract selection idx) and concatenate against take/concat contracts, evidence-carried on the final state, frame of the source (z3); pickle / dict round trips by the bounded native stand-in",
     assumptions=["every kind of index (int array, mask, slice) is a selection take(., idx) with one index map per idx (assumed contract of array indexing)",
                  "sequences of operations follow by induction from the per-operation contracts"],
-    miss=["__getstate__/__setstate__ and to_dict/from_dict are covered by the bounded stand-in only"],
+    miss=["operation sequences longer than one step are covered by the bounded stand-in (each operation has its own contract; the composition is by induction over the Aligned / evidence-carried postconditions)"],
 ))
 
 LOGPROBS = ["samplers.smc.base:SMCSampler.log_prob", "samplers.smc.minipcn:MiniPCNSMC.log_prob", "samplers.smc.blackjax:BlackJAXSMC.log_prob", "samplers.mcmc:MCMCSampler.log_prob"]
@@ -150,7 +150,7 @@ reg(PropertySpec(
     technique="contract-based deductive verification: cadence and payload-currency obligations on the ghost event trace of the real SMCSampler.sample loop; blob contract of dump_pickle_to_hdf over an h5py dataset model (length and bytes for absent/equal/shorter/longer previous contents); file callback contract (append mode, checkpoint/state, closed, in-memory copy); writer/reader name agreement from the ast; bounded native fault injection",
     assumptions=["assumed h5py model: create_dataset(shape, maxshape=(None,)), resize, [:] = b requires equal length; an HDF5 write that returns has completed",
                  "pickle.dump writes a function of the state's value at call time", "process kill in the middle of a write is out of scope: interruptions are exceptions raised in user callables"],
-    miss=["h5py behaviour beyond the model", "ordering of config/flow writes in Aspire.sample_posterior is covered by the bounded stand-in until the Aspire contracts land"],
+    miss=["h5py behaviour beyond the model"],
 ))
 
 reg(PropertySpec(
